@@ -361,7 +361,10 @@ def decodeRequest (cd : Codec) (code : Nat) (needsUser hasReq : Bool) (up : Nat)
 /-! ### answers -/
 
 inductive Ans where
+  /-- onMessage returned `(msg, err)`: the answer could not be wrapped in the requested record type -/
   | drop
+  /-- onMessage returned `(nil, err)`: the request header cannot be decoded, there is no answer object at all -/
+  | ignored
   | err (cmd : Nat) (e : String)
   | version (uid : Nat)
   | optionsOk
@@ -513,7 +516,7 @@ def onMessage (cd : Codec) (dom : List Nat) (σ : Srv) (m : Msg) : Res (Srv × A
     if !hasReq then pure (σ, badCommand) else do
     let h ← decodeHeader needsUser request
     match h with
-    | none => pure (σ, .drop)
+    | none => pure (σ, .ignored)
     | some (_, uid) =>
       let (σ1, user, uerr) ← validate σ uid m.addr
       let up := upOf σ1 user
